@@ -129,7 +129,38 @@ def operator_module(interp):
     return ModuleRef("operator", attrs={"attrgetter": ("host", getter_attr), "itemgetter": ("host", getter_item)})
 
 
-def functools_module():
+def std_modules(interp) -> dict:
+    """stubs of the standard-library modules plain helper code uses, for evaluators that are not built from a module tree"""
+    return {"functools": functools_module(interp), "itertools": _itertools_module(interp), "operator": operator_module(interp),
+            "collections": collections_module()}
+
+
+def collections_module():
+    import collections as _c
+
+    def defaultdict(factory=None, *a, **k):
+        if factory in (list, dict, set, int, str, None):
+            return _c.defaultdict(factory, *a, **k)
+        raise AnalysisError("collections.defaultdict with a factory of the analysed program")
+    return ModuleRef("collections", attrs={"OrderedDict": ("host", lambda *a, **k: dict(*a, **k)),
+                                           "defaultdict": ("host", defaultdict)})
+
+
+def functools_module(interp=None):
+    def reduce(fn, xs, *init):
+        if interp is None:
+            raise AnalysisError("functools.reduce cannot be folded here")
+        items = list(interp.iterate(xs))
+        if init:
+            acc = init[0]
+        elif items:
+            acc, items = items[0], items[1:]
+        else:
+            raise Raised("TypeError", ("reduce() of empty iterable with no initial value",))
+        for x in items:
+            acc = interp.apply(fn, [acc, x], {})
+        return acc
+
     def partial(f, *a, **k):
         if isinstance(f, Closure):
             return Partial(f, a, k)
@@ -137,7 +168,7 @@ def functools_module():
             inner = f[1]
             return ("host", lambda *a2, **k2: inner(*a, *a2, **{**k, **k2}))
         raise AnalysisError("functools.partial over something that is not a function of the analysed program")
-    return ModuleRef("functools", attrs={"partial": ("host", partial)})
+    return ModuleRef("functools", attrs={"partial": ("host", partial), "reduce": ("host", reduce)})
 
 
 class _Return(Exception):
@@ -190,12 +221,14 @@ class Interp:
                     elif a.name == "itertools":
                         self.globals[nm] = _itertools_module(self)
                     elif a.name == "functools":
-                        self.globals[nm] = functools_module()
+                        self.globals[nm] = functools_module(self)
                     elif a.name == "json":
                         import json as _json
                         self.globals[nm] = ModuleRef("json", attrs={"dumps": ("host", _json.dumps), "loads": ("host", _json.loads)})
                     elif a.name == "operator":
                         self.globals[nm] = operator_module(self)
+                    elif a.name == "collections":
+                        self.globals[nm] = collections_module()
                     elif a.name == "types":
                         self.globals[nm] = ModuleRef("types", attrs={"MappingProxyType": ("host", lambda d: d)})
             elif isinstance(st, ast.ImportFrom) and st.level == 0:
@@ -204,13 +237,17 @@ class Interp:
                     if st.module == "types" and a.name == "MappingProxyType":
                         self.globals[nm] = ("host", lambda d: d)       # a read-only view: same contents
                     elif st.module == "functools" and a.name in ("partial",):
-                        self.globals[nm] = functools_module().attrs[a.name]
+                        self.globals[nm] = functools_module(self).attrs[a.name]
                     elif st.module == "itertools":
                         m_ = _itertools_module(self)
                         if a.name in m_.attrs:
                             self.globals[nm] = m_.attrs[a.name]
                     elif st.module == "operator":
                         m_ = operator_module(self)
+                        if a.name in m_.attrs:
+                            self.globals[nm] = m_.attrs[a.name]
+                    elif st.module == "collections":
+                        m_ = collections_module()
                         if a.name in m_.attrs:
                             self.globals[nm] = m_.attrs[a.name]
             elif isinstance(st, (ast.Assign, ast.AnnAssign)):
@@ -596,6 +633,10 @@ class Interp:
             return ("builtin", name)
         if name == "NotImplemented":
             return NotImplemented
+        if name in ("functools", "itertools", "operator", "collections"):
+            # standard-library helpers are available to every evaluator (as if imported)
+            self.globals[name] = std_modules(self)[name]
+            return self.globals[name]
         if name in ("ValueError", "TypeError", "KeyError", "Exception"):
             return ("exc", name)
         raise AnalysisError(f"{self.name}: name {name!r} cannot be folded")
@@ -1056,6 +1097,18 @@ class Interp:
             if isinstance(obj, Record):
                 if a in obj.fields:
                     return obj.fields[a]
+                classes = obj.classes if obj.classes is not None else self.classes
+                meth = classes.get(obj.cls_name, {}).get(a)
+                if meth is not None:
+                    return ("bound", obj, meth)
+                if len(args) > 2:
+                    return args[2]
+                raise Raised("AttributeError", (a,))
+            if isinstance(obj, ClassRef):
+                if a in ("__name__", "__qualname__"):
+                    return obj.name
+                if a in obj.attrs:
+                    return obj.attrs[a]
                 if len(args) > 2:
                     return args[2]
                 raise Raised("AttributeError", (a,))
@@ -1139,6 +1192,12 @@ def _itertools_module(interp):
         "chain": ModuleRef("itertools.chain", attrs={"__call__": ("host", chain), "from_iterable": ("host", from_iterable)}),
         "product": ("host", product), "islice": ("host", islice), "zip_longest": ("host", zip_longest),
         "count": ("host", lambda *a: _it.count(*a)),
+        "repeat": ("host", lambda x, *n: [x] * n[0] if n else _it.repeat(x)),
+        "filterfalse": ("host", lambda fn, xs: [x for x in interp.iterate(xs)
+                                               if not interp.truth(x if fn is None else interp.apply(fn, [x], {}))]),
+        "takewhile": ("host", lambda fn, xs: list(_it.takewhile(lambda x: interp.truth(interp.apply(fn, [x], {})), interp.iterate(xs)))),
+        "dropwhile": ("host", lambda fn, xs: list(_it.dropwhile(lambda x: interp.truth(interp.apply(fn, [x], {})), interp.iterate(xs)))),
+        "starmap": ("host", lambda fn, xs: [interp.apply(fn, list(interp.iterate(x)), {}) for x in interp.iterate(xs)]),
     })
 
 
